@@ -469,6 +469,13 @@ def _set_traits(context, rp, traits):
     to_delete = existing_traits - want_traits
 
     if not to_add and not to_delete:
+        # Nothing to write, so the generation is not incremented, but the
+        # request must still be refused if the provider was changed since
+        # the caller read it.
+        sel = sa.select(_RP_TBL.c.generation).where(_RP_TBL.c.id == rp.id)
+        res = context.session.execute(sel).fetchone()
+        if res is None or res[0] != rp.generation:
+            raise exception.ConcurrentUpdateDetected()
         return
 
     if to_delete:
